@@ -619,7 +619,6 @@ func runFastSync(cfg cfgSpec, j job, res *result) {
 
 func main() {
 	if mc.IsWorker() {
-		debug.SetGCPercent(400)
 		mc.ServeWorker(func(j job) result { return runJob(j) })
 	}
 	filter := flag.String("filter", "", "only run jobs whose cfg/part contains this substring (mutant runs)")
@@ -773,16 +772,20 @@ func main() {
 	r.Finish(cov)
 }
 
+// rank orders the job queue: the one long job first, then the parts in order of importance
+// (a deadline cuts the tail, never the subsets / singles parts).
 func rank(j job) int {
 	switch j.Part {
 	case "fastsync":
-		return 5
-	case "last", "lastpairs":
-		return 4
-	case "pairs":
-		return 3
+		return 9
+	case "subsets":
+		return 8
 	case "singles":
-		return 2
+		return 7
+	case "last":
+		return 6
+	case "pairs":
+		return 5
 	}
 	return 1
 }
